@@ -132,6 +132,8 @@ pub struct SubOut {
     pub malformed: Vec<String>,
     pub raw_bytes: u64,
     pub reached_final: bool,
+    /// the server closed the stream by itself
+    pub stream_ended: bool,
 }
 
 pub async fn subscribe_and_read(app: App, kind: Kind, id: String, ctl: Arc<SubCtl>) -> SubOut {
@@ -194,6 +196,7 @@ pub async fn subscribe_and_read(app: App, kind: Kind, id: String, ctl: Arc<SubCt
         }
     }
     out.raw_bytes = rd.raw_bytes;
+    out.stream_ended = rd.ended;
     out
 }
 
@@ -358,6 +361,22 @@ fn report_common(r: &mut Report, kind: Kind, tag: &str, sub: &SubOut, v: &Verdic
             witness.clone(),
         );
         any = true;
+    }
+    // The server closed the stream although the quiescent log holds frames this subscriber never got, and the
+    // subscriber cannot have lagged (fewer frames exist than the channel holds): those frames are lost to it.
+    if sub.stream_ended && sub.status == 200 && !sub.reached_final {
+        let delivered_max = sub.frames.iter().filter_map(|f| f.get("seq").and_then(|x| x.as_u64())).max();
+        if v.log_len > 0 && (v.log_len as u64) < 16_000 && delivered_max.map(|m| m + 1 < v.log_len as u64).unwrap_or(true) {
+            r.violation(
+                &format!("C06/stream_closed_before_last_frame/{k}/{tag}"),
+                &format!(
+                    "{k} stream was closed by the server after seq {:?} although the stream has {} frames and the subscriber cannot have lagged",
+                    delivered_max, v.log_len
+                ),
+                witness.clone(),
+            );
+            any = true;
+        }
     }
     if !v.not_in_log.is_empty() {
         r.violation(
@@ -663,6 +682,9 @@ pub struct Driven {
     /// position of the subscribe step / of the snapshot step (see `positions`)
     pub sub: u8,
     pub snap: u8,
+    /// the subscriber is held AFTER its snapshot (at `server.stream.snapshotted`) until the producer has
+    /// finished: frames k.. exist only in the subscriber's live receiver when the handler continues
+    pub late_resume: bool,
 }
 
 #[derive(Clone, Debug, PartialEq)]
@@ -788,6 +810,12 @@ fn plan(kind: Kind, c: &Calib, d: &Driven, pctx: &str, qctx: &str) -> Option<Pla
             }
             _ => return None,
         }
+    }
+    if d.late_resume {
+        let mut sr = ParkRule::new(QN, qctx, 1, DONE_POINT, pctx, 1);
+        sr.timeout_ms = 12_000;
+        p.sub_rule = Some(sr);
+        p.fire_done_point = true;
     }
     // sched stops scanning its rule list at the first rule that parks: a later hit of the same
     // point must be listed first or it would miss one hit.
@@ -930,9 +958,18 @@ fn enumerate(vars: &[Variant], calibs: &[Option<Calib>]) -> Vec<Driven> {
                     {
                         continue;
                     }
-                    out.push(Driven { variant: vi, k, sub, snap });
+                    out.push(Driven { variant: vi, k, sub, snap, late_resume: false });
                 }
             }
+        }
+        // snapshot before frame k, handler resumes only after the stream has ended
+        let mut ks = vec![1u64, c.n / 2, c.n.saturating_sub(1)];
+        ks.dedup();
+        for k in ks {
+            if k >= c.n || anchor(v.kind, c, k, 0, true) == Anchor::Impossible || matches!(anchor(v.kind, c, k, 0, true), Anchor::BeforeStart | Anchor::AfterEnd) {
+                continue;
+            }
+            out.push(Driven { variant: vi, k, sub: 0, snap: 0, late_resume: true });
         }
     }
     out
@@ -1073,7 +1110,7 @@ pub fn run(cfg: &Cfg) -> i32 {
 }
 
 fn driven_tag(d: &Driven) -> String {
-    format!("driven_sub{}_snap{}", d.sub, d.snap)
+    format!("driven_sub{}_snap{}{}", d.sub, d.snap, if d.late_resume { "_late_resume" } else { "" })
 }
 
 fn driven_case(cx: &mut Ctx, r: &mut Report, v: &Variant, c: &Calib, d: &Driven) {
@@ -1118,8 +1155,8 @@ fn driven_case(cx: &mut Ctx, r: &mut Report, v: &Variant, c: &Calib, d: &Driven)
         return;
     }
     r.count("driven_realised", 1);
-    r.count(&format!("driven_realised_p{}{}", d.sub, d.snap), 1);
-    r.distinct_str(&format!("driven/{k}/{}/k{}/{}{}", v.name, d.k, d.sub, d.snap));
+    r.count(&format!("driven_realised_p{}{}{}", d.sub, d.snap, if d.late_resume { "_late_resume" } else { "" }), 1);
+    r.distinct_str(&format!("driven/{k}/{}/k{}/{}{}{}", v.name, d.k, d.sub, d.snap, d.late_resume));
     let ver = compare(&out.id, &sub.frames, log);
     r.count("frames_received", ver.received as u64);
     r.count("frames_compared_with_log", (ver.received - ver.not_in_log.len()) as u64);
@@ -1135,7 +1172,7 @@ fn driven_case(cx: &mut Ctx, r: &mut Report, v: &Variant, c: &Calib, d: &Driven)
         .map(|e| format!("{}:{}@t{} seq={}", e.clock, e.point, e.thread, e.ctx.rsplit(' ').next().filter(|x| x.len() < 8).unwrap_or("-")))
         .collect();
     let witness = json!({
-        "phase": "driven", "kind": k, "variant": v.name, "k": d.k, "sub": d.sub, "snap": d.snap,
+        "phase": "driven", "kind": k, "variant": v.name, "k": d.k, "sub": d.sub, "snap": d.snap, "late_resume": d.late_resume,
         "hooks": c.hooks.iter().map(|(h, held)| json!([h, held])).collect::<Vec<_>>(),
         "log_frames": log.len(), "received_seqs": sub.frames.iter().filter_map(|f| f.get("seq").and_then(|x| x.as_u64())).collect::<Vec<_>>(),
         "lost": short(&ver.lost), "schedule": sched_trace,
@@ -1208,6 +1245,7 @@ fn replay(cx: &mut Ctx, r: &mut Report, path: &std::path::Path) {
                         k: w["k"].as_u64().unwrap_or(0),
                         sub: w["sub"].as_u64().unwrap_or(0) as u8,
                         snap: w["snap"].as_u64().unwrap_or(0) as u8,
+                        late_resume: w["late_resume"].as_bool().unwrap_or(false),
                     };
                     driven_case(cx, r, &v, &c, &d);
                 }
